@@ -6,7 +6,7 @@ func init() {
 		Title: "The per-subscriber token bucket admits exactly the configured rate",
 		// control plane (Go): the writer of the buckets the kernel programs enforce
 		Pkgs:  []string{"./pkg/qos", "./pkg/radius"},
-		Funcs: []string{"qos.Manager.SetSubscriberQoS", "qos.Manager.SetSubscriberPolicy", "qos.ipToKey"},
+		Funcs: []string{"qos.Manager.SetSubscriberQoS", "qos.Manager.SetSubscriberPolicy", "qos.Manager.RemoveSubscriberQoS", "qos.ipToKey"},
 		BPF: []BPFUnit{
 			{"qos_ratelimit.c", "qos_egress_prog"}, {"qos_ratelimit.c", "qos_ingress_prog"},
 		},
@@ -19,7 +19,7 @@ func init() {
 		BPFKinds: "tb_contract,tb_math,tb_two_packets,tb_two_packets_math",
 		Undecided: []string{
 			"window statements ('admitted bytes in any window W <= burst + rate*W', 'a backlogged subscriber gets >= rate*W - burst - one maximum packet'): they follow from the per-call lemmas by summing over the calls in the window (consumed intervals [last_update, last_update') are disjoint and lie inside the window; credited*1e9 <= consumed*rate; unconsumed time earns < 1 token; consumed time over-pays < 1 ns of rate per refill unless the bucket is full); the summation itself is an argument on paper, not an obligation",
-			"two CPUs updating one bucket concurrently (the bucket is read-modify-written without atomics); the control-plane writer (pkg/qos SetSubscriberQoS / SetSubscriberPolicy) is under contract for what it hands to the kernel maps (one Put per loaded map, requested rates, full bucket, zero clock), but the kernel map contents themselves are outside the Go heap model: that a later Put for the same key replaces the earlier bucket, and RemoveSubscriberQoS, are not decided",
+			"two CPUs updating one bucket concurrently (the bucket is read-modify-written without atomics); the control-plane writer (pkg/qos SetSubscriberQoS / SetSubscriberPolicy) is under contract for what it hands to the kernel maps (one Put per loaded map, requested rates, full bucket, zero clock), but the kernel map contents themselves are outside the Go heap model: that a later Put for the same key replaces the earlier bucket, is not decided; RemoveSubscriberQoS is proved to delete the address's entry from every loaded map",
 			"clock going backwards relative to last_update (scope assumes now >= last_update; the code then treats the wrapped difference as a long idle period and refills the bucket)",
 			"rates of 1..7 bit/s earn no whole byte per second and are never refilled (documented behaviour of the repaired code: contract sub_byte_rate_never_refills)",
 		},
